@@ -62,13 +62,27 @@ type c20Case struct {
 	scmpType       uint8
 	scmpCode       uint8
 	payload        []byte
+	dirty          bool // serialize into a reused buffer holding stale bytes
 }
+
+var c20Dirty = gopacket.NewSerializeBuffer()
 
 func (c *c20Case) serialize() ([]byte, error) {
 	s := &slayers.SCION{PathType: empty.PathType, Path: empty.Path{},
 		SrcIA: addr.IA(c.srcIA), DstIA: addr.IA(c.dstIA),
 		SrcAddrType: c.srcT, DstAddrType: c.dstT, RawSrcAddr: c.rawSrc, RawDstAddr: c.rawDst}
 	buf := gopacket.NewSerializeBuffer()
+	if c.dirty {
+		// a reused buffer: gopacket hands out previously used memory in an indeterminate state, the
+		// serializer must write every byte of its header itself
+		buf = c20Dirty
+		_ = buf.Clear()
+		junk, _ := buf.PrependBytes(len(c.payload) + 64)
+		for i := range junk {
+			junk[i] = byte(i*131 + 0x5b) // not 0xff: 0xffff is the neutral element of the one's-complement sum
+		}
+		_ = buf.Clear()
+	}
 	opts := gopacket.SerializeOptions{FixLengths: true, ComputeChecksums: true}
 	if c.udp {
 		u := &slayers.UDP{SrcPort: c.sport, DstPort: c.dport}
@@ -133,6 +147,7 @@ func genC20(rt *rapid.T) *c20Case {
 	default:
 		c.payload = rapid.SliceOfN(rapid.Byte(), n, n).Draw(rt, "payload")
 	}
+	c.dirty = rapid.Bool().Draw(rt, "reusedBuffer")
 	c.udp = rapid.Bool().Draw(rt, "udp")
 	if c.udp {
 		c.sport, c.dport = rapid.Uint16().Draw(rt, "sport"), rapid.Uint16().Draw(rt, "dport")
